@@ -24,8 +24,8 @@ H.append({"name":"H_rediff","tiers":Q,"scale":"b2","bounds":"compression WIRING 
   "param_sets":[dict(p,cin=ci,cout=co) for p in grid([(4,2)],[0,1,3],[1],[1],[0],2) for ci in (0,1,2) for co in (0,1,2) if (ci,co)!=(0,0)]})
 H.append({"name":"H_moved","tiers":Q,"scale":"w","bounds":"two files optimized in one run, larger old file first (30 and 12 bytes, concrete distinct contents, one symbolic edit byte): 10 bytes of old A (from an offset beyond old B's size) moved into new B, before or after B's own content (new B still maps to old B); partitions 0 and 2; scan block 64, LRU chunk 4",
   "param_sets":[{"la":30,"lb":12,"off":o,"ln":10,"pos":q,"parts":p} for o in (13,16,19) for q in (0,1) for p in (0,2)]})
-H.append({"name":"H_rediff","tiers":T,"scale":"b2","bounds":"B=2, alphabet {0,1,2}: A 0..4 with B in {0,3}, A 5 with B 0; all shapes; partitions 0, 1, 3, 8; default size limit","max_seconds":900,
-  "param_sets":grid([(a,b) for a in range(0,6) for b in (0,3) if not (a==5 and b==3)],range(0,5),[0,1,3,8],[0,1],[0],3)})
+H.append({"name":"H_rediff","tiers":T,"scale":"b2","bounds":"B=2, alphabet {0,1,2}: A 0..4 with B in {0,3}, A 5 with B 0; all shapes (A 4 / B 3 / ForceMapAll only shapes 0-2); partitions 0, 1, 3, 8; default size limit","max_seconds":900,
+  "param_sets":[p for p in grid([(a,b) for a in range(0,6) for b in (0,3) if not (a==5 and b==3)],range(0,5),[0,1,3,8],[0,1],[0],3) if not (p['a']==4 and p['b']==3 and p['force']==1 and p['shape']>=3)]})
 json.dump({"property":"C07","package":"c07","scale":scale,"harnesses":H,
  "stubs":["os -> memfs, md5/protobuf models","ozzo validation -> 'required fields present'","deterministic goroutine schedule for bsdiff workers (schedules: C15)"],
  "outside":["the real gzip/brotli codecs (the wiring around them is covered with model codecs)","files > 6 bytes","suffix sort concurrency values other than 0 (the field is not read by the code under test)"]},open("config.json","w"),indent=1)
